@@ -56,7 +56,7 @@ fn replay(path: &str) -> i32 {
             #[cfg(feature = "nightly")]
             "C14.pm" | "C15.pm" | "C19.pm" => pm::replay(case),
             c if c.ends_with(".harness") => {
-                println!("the recorded violation is a panic outside the harness's guards: re-running the whole check {}", prop);
+                println!("the recorded violation has no smaller replay unit (a deterministic section or a panic outside the guards): re-running the whole check {}", prop);
                 std::process::exit(match std::panic::catch_unwind(|| dispatch(&[String::new(), prop.to_string()])) {
                     Ok(code) => code,
                     Err(_) => {
